@@ -181,7 +181,6 @@ theorem subInv_estep {s s' : St} (h : SubInv s) (st : EStep s s') : SubInv s' :=
   cases st with
   | incReg => exact subInv_of_cc (by unfold St.incReg; rw [frames_mapFrames]; simp [List.map_map, Function.comp_def]) h
   | emit i _ _ _ _ => exact subInv_push h i
-  | branch i _ _ _ _ _ => exact subInv_push h i
   | incEmit i _ _ _ _ =>
     exact subInv_push (subInv_of_cc (by unfold St.incReg; rw [frames_mapFrames]; simp [List.map_map, Function.comp_def]) h) i
   | addErr k v l o => exact subInv_of_cc (s := s) rfl h
@@ -418,7 +417,6 @@ theorem ss_estep {s s' : St} (st : EStep s s') : s'.shapesStack = s.shapesStack 
   cases st with
   | incReg => exact ss_incReg s
   | emit i _ _ _ _ => exact ss_push i s
-  | branch i _ _ _ _ _ => exact ss_push i s
   | incEmit i _ _ _ _ => rw [ss_push]; exact ss_incReg s
   | addErr k v l o => rfl
   | declare n v i _ _ _ _ _ =>
@@ -433,6 +431,11 @@ theorem ss_esteps {s s' : St} (h : ESteps s s') : s'.shapesStack = s.shapesStack
   induction h with
   | refl => rfl
   | tail _ st ih => rw [ss_estep st, ih]
+
+theorem ss_bsteps {s s' : St} (h : BSteps s s') : s'.shapesStack = s.shapesStack := by
+  obtain ⟨s1, h1, rfl | ⟨i, rfl, _⟩⟩ := h
+  · exact ss_esteps h1
+  · rw [ss_push, ss_esteps h1]
 
 theorem ss_leave (s : St) (t p : List Shape) (r : List (List Shape)) (h : s.shapesStack = t :: p :: r) :
     s.leave.2.shapesStack = (p ++ [.node [] t]) :: r := by
@@ -494,14 +497,14 @@ theorem ss_ifPrologue (g : Globals) (cond : IfCond) (dup isElse : Bool) (labelEn
   cases labelEnd with
   | some l =>
     dsimp only
-    rw [ss_push, ss_esteps (esteps_ifCondCalc g cond lb le l isElse s3)]
+    rw [ss_push, ss_bsteps (esteps_ifCondCalc g cond lb le l isElse s3)]
   | none =>
     dsimp only
     have h4 := ss_probeLabel "if_end".toList s3
     generalize s3.probeLabel "if_end".toList = p3 at h4
     obtain ⟨ln, s4⟩ := p3
     dsimp only at h4 ⊢
-    rw [ss_push, ss_esteps (esteps_ifCondCalc g cond lb le ln isElse s4), h4]
+    rw [ss_push, ss_bsteps (esteps_ifCondCalc g cond lb le ln isElse s4), h4]
 
 theorem ss_ifAfterBody (isElse r : Bool) (lElse lEnd : Name) (s : St) (t p : List Shape) (rs : List (List Shape))
     (h : s.shapesStack = t :: p :: rs) :
